@@ -445,5 +445,5 @@ func gen(r *hv.Rng, i int, tier string) (string, hv.Val) {
 }
 
 func main() {
-	hv.Main(&hv.Spec{Prop: "C24", Gen: gen, Impl: impl, NQuick: 4000, NThorough: 300000})
+	hv.Main(&hv.Spec{Prop: "C24", Gen: gen, Impl: impl, NQuick: 3000, NThorough: 300000})
 }
